@@ -102,6 +102,7 @@ type ksSched struct {
 	panics   []string
 	crashAt  int
 	stats    map[string]int64
+	sticky   bool
 }
 
 func (s *ksSched) ev(f string, a ...interface{}) {
@@ -264,7 +265,26 @@ func (s *ksSched) run() ksOutcome {
 			s.ev("process crash injected")
 			return ksOutcome{Crashed: true}
 		}
-		a := acts[s.choose(len(acts))]
+		var a action
+		if s.sticky && s.pickPos >= len(s.picks) && s.cur != nil && s.rng.Chance(0.7) {
+			// run-to-completion bias: keep going with the task that ran last, so that whole operations of one task fall
+			// inside a single gap of another (the recorded pick is the index actually taken: replays do not need the bias)
+			idx := -1
+			for i := range acts {
+				if acts[i].t == s.cur {
+					idx = i
+				}
+			}
+			if idx >= 0 {
+				s.pickPos++
+				s.usedPick = append(s.usedPick, idx)
+				a = acts[idx]
+			} else {
+				a = acts[s.choose(len(acts))]
+			}
+		} else {
+			a = acts[s.choose(len(acts))]
+		}
 		t := a.t
 		switch a.what {
 		case "announce":
@@ -527,6 +547,7 @@ func runKsScript(sc *KsScript, scratch string) *KsResult {
 		panic(err)
 	}
 	s := &ksSched{rng: NewPRNG(sc.Seed ^ 0x5ced), picks: sc.Picks, events: make(chan ksReq), paths: map[int]string{}, ks: ks, crashAt: sc.CrashAt, stats: res.Stats}
+	s.sticky = sc.Seed%2 == 1
 	for i, ops := range sc.Tasks {
 		s.tasks = append(s.tasks, &ksTask{id: i, ops: ops, resume: make(chan struct{})})
 	}
